@@ -84,7 +84,7 @@ def doTxw (args : List String) : String :=
   | some cfg, some evs =>
     let st := epCheck cfg evs
     let v := match st.viol with | some v => s!"viol:{v}" | none => "ok"
-    (if st.out.isEmpty then "-" else " ".intercalate st.out) ++ s!" | {v} rex={st.rexmits} q={st.outQ.length}"
+    (if st.out.isEmpty then "-" else " ".intercalate st.out) ++ s!" | {v} rex={st.rexmits} q={st.outQ.length} quiet={st.quietTx} over={st.maxOver}"
   | _, _ => "bad-args"
 
 def optU16? (s : String) : Option (Option UInt16) := if s = "-" then some none else (u16? s).map some
